@@ -4,6 +4,7 @@ package main
 // The string functions are interpreted by the standard library itself (the trusted table of DESIGN.md §7).
 
 import (
+	"go/ast"
 	"go/constant"
 	"go/token"
 	"go/types"
@@ -23,6 +24,91 @@ type strEnv struct {
 	hook  func(t Term) (sval, bool)
 	fail  string
 	panic string // run-time panic the expression would raise (index out of range)
+	bufs  map[string][]byte // byte buffers made on the path (by the key of their make term), as execStep left them
+}
+
+// isByteSlice: []byte.
+func isByteSlice(t types.Type) bool {
+	if t == nil {
+		return false
+	}
+	sl, ok := t.Underlying().(*types.Slice)
+	if !ok {
+		return false
+	}
+	b, ok := sl.Elem().Underlying().(*types.Basic)
+	return ok && b.Kind() == types.Uint8
+}
+
+// bufRef resolves a destination term to a byte buffer made on the path and an offset into it: make(…), make(…)[lo:].
+func (e *strEnv) bufRef(t Term) (string, int, bool) {
+	switch x := t.(type) {
+	case TBuiltin:
+		if x.Name == "make" && isByteSlice(x.Type) {
+			if _, ok := e.val(x); !ok { // registers the buffer
+				return "", 0, false
+			}
+			return key(x), 0, true
+		}
+	case TSlice:
+		k, off, ok := e.bufRef(x.X)
+		if !ok {
+			return "", 0, false
+		}
+		lo := int64(0)
+		if x.Lo != nil {
+			v, ok := e.val(x.Lo)
+			if !ok || v.K != 'i' {
+				return "", 0, false
+			}
+			lo = v.I
+		}
+		if lo < 0 || off+int(lo) > len(e.bufs[k]) {
+			e.panic = "slice bounds out of range"
+			return "", 0, false
+		}
+		return k, off + int(lo), true
+	}
+	return "", 0, false
+}
+
+// execStep applies a store into / a copy into a byte buffer made on the path. Reports false for any other effect.
+func (e *strEnv) execStep(st Step) bool {
+	switch {
+	case st.Kind == "store":
+		ix, ok := st.LHS.(TIndex)
+		if !ok {
+			_, isVar := st.LHS.(TVar)
+			return isVar // zero-initialisation of an addressed local
+		}
+		k, off, ok := e.bufRef(ix.X)
+		if !ok {
+			return false
+		}
+		i, ok1 := e.val(ix.I)
+		b, ok2 := e.val(st.RHS)
+		if !ok1 || !ok2 || i.K != 'i' || b.K != 'i' {
+			return false
+		}
+		if i.I < 0 || off+int(i.I) >= len(e.bufs[k]) {
+			e.panic = "index out of range"
+			return true
+		}
+		e.bufs[k][off+int(i.I)] = byte(b.I)
+		return true
+	case st.Kind == "call" && st.Blt != nil && st.Blt.Name == "copy" && len(st.Blt.Args) == 2:
+		k, off, ok := e.bufRef(st.Blt.Args[0])
+		if !ok {
+			return false
+		}
+		src, ok := e.val(st.Blt.Args[1])
+		if !ok || src.K != 's' {
+			return false
+		}
+		copy(e.bufs[k][off:], src.S)
+		return true
+	}
+	return false
 }
 
 func (e *strEnv) bad(w string) (sval, bool) {
@@ -92,6 +178,48 @@ func (e *strEnv) val(t Term) (sval, bool) {
 				return sval{K: 'i', I: int64(len(v.S))}, true
 			}
 			return sval{}, false
+		}
+		if x.Name == "make" && isByteSlice(x.Type) && len(x.Args) >= 1 {
+			// a byte buffer made on the path: its current content (bytes are folded as a string)
+			if e.bufs == nil {
+				e.bufs = map[string][]byte{}
+			}
+			if b, ok := e.bufs[key(x)]; ok {
+				return sval{K: 's', S: string(b)}, true
+			}
+			n, ok := e.val(x.Args[0])
+			if !ok || n.K != 'i' || n.I < 0 || n.I > 64 {
+				return sval{}, false
+			}
+			e.bufs[key(x)] = make([]byte, n.I)
+			return sval{K: 's', S: string(e.bufs[key(x)])}, true
+		}
+		if x.Name == "append" && len(x.Args) >= 1 {
+			// append on byte slices, functionally: bytes one by one, or a string/byte slice spread
+			dst, ok := e.val(x.Args[0])
+			if !ok || dst.K != 's' {
+				return sval{}, false
+			}
+			out := dst.S
+			spread := false
+			if ce, isCall := x.Site.(*ast.CallExpr); isCall && ce.Ellipsis.IsValid() {
+				spread = true
+			}
+			for _, a := range x.Args[1:] {
+				v, ok := e.val(a)
+				if !ok {
+					return sval{}, false
+				}
+				switch {
+				case spread && v.K == 's':
+					out += v.S
+				case !spread && v.K == 'i':
+					out += string([]byte{byte(v.I)})
+				default:
+					return sval{}, false
+				}
+			}
+			return sval{K: 's', S: out}, true
 		}
 	case TIndex:
 		s, ok1 := e.val(x.X)
@@ -323,6 +451,12 @@ func shortStrings(alphabet string, maxLen int) []string {
 // its conditions, and the loop-carried integer variables are updated from the path's final environment; then the post statement.
 // Returns the values of the loop-carried variables after the loop. Effects inside the loop are not allowed (pure counting loops).
 func (c *Ctx) foldLoop(l *LoopRec, hook func(Term) (sval, bool), limit int) (map[types.Object]sval, string) {
+	return c.foldLoopMem(l, hook, limit, nil)
+}
+
+// foldLoopMem: as foldLoop; mem holds the folded values of addressed locals (by the key of the variable term): stores to such a local
+// inside the loop are applied to it, loads of it (*&v) read it.
+func (c *Ctx) foldLoopMem(l *LoopRec, hook func(Term) (sval, bool), limit int, mem map[string]sval) (map[types.Object]sval, string) {
 	if l.For == nil || l.CondT == nil {
 		return nil, "not a counted loop"
 	}
@@ -335,15 +469,24 @@ func (c *Ctx) foldLoop(l *LoopRec, hook func(Term) (sval, bool), limit int) (map
 		}
 		state[o] = v
 	}
+	cur := mem
 	h := func(t Term) (sval, bool) {
 		if lv, ok := t.(TLoop); ok && lv.ID == l.ID {
 			if v, ok := state[lv.Obj]; ok {
 				return v, true
 			}
 		}
+		if d, ok := t.(TDeref); ok && cur != nil {
+			if a, ok := d.X.(TAddr); ok {
+				if v, ok := cur[key(a.X)]; ok {
+					return v, true
+				}
+			}
+		}
 		return hook(t)
 	}
 	for it := 0; it < limit; it++ {
+		cur = mem
 		e := &strEnv{hook: h}
 		cv, ok := e.val(l.CondT)
 		if e.panic != "" {
@@ -356,10 +499,31 @@ func (c *Ctx) foldLoop(l *LoopRec, hook func(Term) (sval, bool), limit int) (map
 			return state, ""
 		}
 		var sel *Path
+		var selMem map[string]sval
 		for _, ip := range l.Iter {
 			feasible := true
+			if mem != nil {
+				cur = map[string]sval{}
+				for k, v := range mem {
+					cur[k] = v
+				}
+			}
 			for _, st := range ip.Steps {
 				switch st.Kind {
+				case "store":
+					tv, isVar := st.LHS.(TVar)
+					if !isVar || cur == nil {
+						return nil, "effect inside a folded loop"
+					}
+					e2 := &strEnv{hook: h}
+					v, ok := e2.val(st.RHS)
+					if e2.panic != "" {
+						return nil, e2.panic
+					}
+					if !ok {
+						return nil, "store inside the loop cannot be folded: " + e2.fail
+					}
+					cur[key(tv)] = v
 				case "cond":
 					e2 := &strEnv{hook: h}
 					v, ok := e2.val(st.Cond.T)
@@ -383,12 +547,18 @@ func (c *Ctx) foldLoop(l *LoopRec, hook func(Term) (sval, bool), limit int) (map
 				if sel != nil {
 					return nil, "two feasible iteration paths"
 				}
-				sel = ip
+				sel, selMem = ip, cur
 			}
 		}
 		if sel == nil || (sel.End != "fall" && sel.End != "continue") {
 			return nil, "no continuing iteration path"
 		}
+		if mem != nil && selMem != nil {
+			for k, v := range selMem {
+				mem[k] = v
+			}
+		}
+		cur = mem
 		next := map[types.Object]sval{}
 		for o := range state {
 			if t, ok := sel.Env[o]; ok {
